@@ -23,6 +23,12 @@
         the full statement is FALSE for the reader before the fix — phantom record with a zero-filled
         value, or a decode error that panics FileQueue.Start)
 
+  Restart (checkFile truncates at Offset since /repo commit 3252737; Put writes at Offset without truncating):
+    restart_then_puts, restart_idempotent, torn_restart_put_restart   on an ARBITRARY file (< 4 GiB): after start-up
+                             the file length is the write position; later scans deliver exactly the first scan's
+                             records followed by exactly the records written since; restart twice = restart once  (full)
+    restart_put_legacy_phantom   code before 3252737: phantom record out of the remnant of a torn record      (refutation, legacy)
+
   Store level:
     redeliver_idempotent, redeliver_prefix, redeliver_twice                                                  (full)
 
@@ -30,21 +36,22 @@
   setIndex / delIndex / emptyFile by the `qput/qbatch/qdone/qcrash` ops):
     queue_refcnt_invariant   refCnt k = number of pending records of k, for every op sequence; no panic  (full)
     queue_wal_removed_only_when_idle, queue_no_acked_record_lost   tmp.data is removed only when nothing is
-                             pending; a crash at any point loses no acknowledged record                    (full)
-    queue_seeded_refuted     the variant whose setIndex drops the increment loses an acknowledged record (refutation)
+                             pending; a crash at any OPERATION BOUNDARY loses no acknowledged record         (full)
+    queue_seeded_refuted     the variant whose setIndex drops the increment loses an acknowledged record (refutation, variant)
 
-  context.data (candidate list):
-    context_replace_atomic, context_tmp_never_read, context_first_start_atomic   write-temp-then-rename
-                             (current code, /repo commit 298fcc8): restart reads exactly old or new      (full)
-    context_inplace_refuted, context_created_empty_refuted   rewrite in place (code before 298fcc8)     (refutations)
+  context.data (candidate list): context_replace_atomic — by definition of `ctxLoad` (the temp file is never read)
+    plus assumed rename atomicity: restart reads exactly old or new; legacy refutations for the code before 298fcc8.
 
-  Protocol level (record granularity, model at the end of `LemoModel.Wal`; NOT repaired in /repo):
-    stable_after_crash_partial   every crash point outside the window "first record of the batch durable …
-                                 SetCurrentBlock executed" recovers to the previous or to the new state     (_partial)
-    stable_after_crash_refuted   inside the window the recovered store holds block h's accounts under the
-                                 stable pointer h-1                                                        (refutation)
-    torn_batch_refuted           a batch torn between two records                                          (refutation)
-    recover_idempotent           a crash during recovery itself is harmless (at record granularity)       (full)
+  Protocol level (record granularity, model `crashState`/`recover` in `LemoModel.Wal`; NOT repaired in /repo):
+    stable_after_crash_partial   any disk (quiescent or not), every crash point outside window 1 (batch durable …
+                                 SetCurrentBlock executed) and window 2 (SetCurrentBlock executed … Context.Flush
+                                 completed): recovery = the state before or the completed promotion, incl. candidates (_partial)
+    stable_after_crash_refuted, pointer_moved_context_not_flushed_refuted, torn_batch_refuted            (refutations, current code)
+    recover_idempotent           record level only: the writer re-stored a prefix, then another restart; a crash
+                                 inside one BitCask.Put and torn LevelDB writes are NOT modelled
+
+  NOT covered by any theorem (oracles only, see props/C08.json `partial`): ancestors by hash/height, contract code,
+  trie nodes, candidate top; engine-level restart equivalence (InsertBlock of a restarted vs a continuous node).
 -/
 import LemoModel.Wal
 import LemoProofs.Lemmas.Wal
@@ -472,37 +479,48 @@ theorem redeliver_twice (s : Store) (wal : List Record) : (s.replay wal).replay 
 
 /-! ## protocol level -/
 
-/-- a quiescent disk: everything in tmp.data has already been stored -/
+/-- a quiescent disk: everything in tmp.data has already been stored (needed for ONE crash point only:
+    `emptyFile` deleting tmp.data, which the code does only when nothing is pending) -/
 def Quiescent (d : Disk) : Prop := d.kv.replay d.wal = d.kv
 
-/-- the crash points outside the defect window: nothing of the batch is durable yet, or the stable
-    pointer has already been moved -/
-def safePoint : CrashPoint → Prop
+/-- the crash points outside the two defect windows: nothing of the batch is durable yet, or the stable pointer
+    has been moved AND (the block changes no candidate, or Context.Flush has completed) -/
+def safePoint (d : Disk) (p : Promotion) : CrashPoint → Prop
   | .before => True
-  | .walReset => True
+  | .walReset => Quiescent d
   | .appending j => j = 0
-  | .committed _ moved => moved = true
+  | .committed _ moved flushed => moved = true ∧ (flushed = true ∨ p.changesCands = false)
 
-/-- **stable_after_crash_partial**: for every promotion on a quiescent disk and every crash point
-    outside the window, start-up recovery yields exactly the view of the previous stable state or of
-    the completed promotion — stable pointer and key/value contents agree ("account data as of exactly
-    that block"). -/
-theorem stable_after_crash_partial (d : Disk) (p : Promotion) (cp : CrashPoint)
-    (hq : Quiescent d) (hsafe : safePoint cp) :
-    (recover (crashState d p cp)).sameView d ∨ (recover (crashState d p cp)).sameView (completed d p) := by
+/-- **stable_after_crash_partial**: for every promotion on ANY disk (quiescent or with a lagging writer — the
+    second block of a multi-block SetStableBlock included) and every crash point outside the two windows
+      (1) first record of the batch durable … SetCurrentBlock executed,
+      (2) SetCurrentBlock executed … Context.Flush completed (when the block changes a candidate),
+    start-up recovery yields exactly the recovered view of the state before the promotion or of the completed
+    promotion: key/value contents, stable pointer and candidate list agree. -/
+theorem stable_after_crash_partial (d : Disk) (p : Promotion) (cp : CrashPoint) (hsafe : safePoint d p cp) :
+    (recover (crashState d p cp)).sameView (recover d) ∨
+    (recover (crashState d p cp)).sameView (recover (completed d p)) := by
   cases cp with
-  | before => left; exact ⟨hq, rfl⟩
-  | walReset => left; exact ⟨rfl, rfl⟩
+  | before => left; exact ⟨rfl, rfl, rfl⟩
+  | walReset =>
+    left
+    have hq : d.kv.replay d.wal = d.kv := hsafe
+    refine ⟨?_, rfl, rfl⟩
+    show (d.kv.replay ([] : List Record)) = d.kv.replay d.wal
+    rw [hq]; rfl
   | appending j =>
     left
     have : j = 0 := hsafe
     subst this
-    exact ⟨by simp [recover, crashState, Store.replay], rfl⟩
-  | committed a moved =>
+    exact ⟨by simp [recover, crashState], rfl, rfl⟩
+  | committed a moved flushed =>
     right
-    have : moved = true := hsafe
-    subst this
-    exact ⟨by simp [recover, crashState, completed, redeliver_prefix], by simp [recover, crashState, completed]⟩
+    obtain ⟨hm, hfl⟩ := hsafe
+    subst hm
+    refine ⟨?_, by simp [recover, crashState, completed], ?_⟩
+    · simp only [recover, crashState, completed]
+      rw [redeliver_prefix, redeliver_twice]
+    · rcases hfl with h | h <;> simp [recover, crashState, completed, h]
 
 /-! ### byte level and record level together (reader before the fix) -/
 
@@ -537,6 +555,109 @@ theorem recoverBytes_torn_refuted_panic :
     recoverBytesLegacy (Store.empty.apply witness.r) ((encodeRecord witness.ts witness.crc witness.r).take 19) = none := by
   unfold recoverBytesLegacy recoverWith
   rw [scan_torn_total_refuted_error]
+
+/-! ## restart on an ARBITRARY file, then more writes (the tail shape is not restricted) -/
+
+/-- writing at the end of a file whose length is the write position is a plain append -/
+theorem writeAt_at_end (f b : Bytes) : writeAt f f.length b = f ++ b := by
+  unfold writeAt truncateTo
+  rw [List.take_of_length_le (Nat.le_refl _), Nat.sub_self, List.drop_eq_nil_of_le (by omega)]
+  simp [zeros]
+
+/-- **restart_then_puts** — for ANY file `f` (< 4 GiB; whatever bytes it holds: torn tail, remnants, garbage)
+    on which the start-up scan does not fail: after `checkFile` the file length IS the write position, and
+    whatever sealed records are written afterwards, the next scan ends with EOF and delivers exactly the
+    records of the first scan followed by exactly the new records — never a record that was not written. -/
+theorem restart_then_puts (f : Bytes) (hf : f.length + 274 ≤ 4294967296) (ss : List Stamped)
+    (hss : ∀ s ∈ ss, Sealed s) (f' : Bytes) (off : Nat) (recs : List Record)
+    (h : checkFile f = some (f', off, recs)) :
+    f'.length = off ∧
+    scan (f' ++ encodeAll ss) = ⟨.eof, off + (encodeAll ss).length, recs ++ ss.map (·.r)⟩ := by
+  unfold checkFile at h
+  by_cases he : (scan f).stop = .eof
+  · rw [if_pos he] at h
+    injection h with h
+    injection h with h1 h2
+    injection h2 with h2 h3
+    have hscan : scan f = ⟨.eof, off, recs⟩ := by
+      cases hs : scan f with
+      | mk st o rs =>
+        rw [hs] at he h2 h3
+        simp only at he h2 h3
+        rw [he, h2, h3]
+    rw [h2] at h1
+    subst h1
+    exact ⟨by simp, scan_truncated f hf ss hss off recs hscan⟩
+  · rw [if_neg he] at h; contradiction
+
+/-- **restart_idempotent** ("crashes during recovery itself"): restarting again right after a restart —
+    before, or without, any further write — is a fixed point: same file, same write position, same records. -/
+theorem restart_idempotent (f : Bytes) (hf : f.length + 274 ≤ 4294967296) (f' : Bytes) (off : Nat)
+    (recs : List Record) (h : checkFile f = some (f', off, recs)) :
+    checkFile f' = some (f', off, recs) := by
+  obtain ⟨hl, hs⟩ := restart_then_puts f hf [] (by simp) f' off recs h
+  simp only [encodeAll, List.append_nil, List.length_nil, Nat.add_zero, List.map_nil] at hs
+  unfold checkFile
+  rw [hs]
+  simp only [if_true]
+  unfold truncateTo
+  rw [hl, List.take_of_length_le (by omega), Nat.sub_self]
+  simp [zeros]
+
+/-- **torn_restart_put_restart**: the whole overwrite-remnant scenario for a torn tail of ANY shape: old records,
+    any prefix of the record in flight, any zero tail; restart; any further sealed writes (appended at the write
+    position by `writeAt`); restart: exactly the old records (plus the record in flight iff the first restart
+    delivered it), then exactly the new ones. -/
+theorem torn_restart_put_restart (good : List Stamped) (s : Stamped) (c z : Nat) (ss : List Stamped)
+    (hg : ∀ x ∈ good, Sealed x) (hs : Sealed s) (hd : 0 < z → CrcDetects s.r) (hss : ∀ x ∈ ss, Sealed x)
+    (hf : (encodeAll good ++ ((encodeRecord s.ts s.crc s.r).take c ++ zeros z)).length + 274 ≤ 4294967296) :
+    ∃ f' off recs,
+      checkFile (encodeAll good ++ ((encodeRecord s.ts s.crc s.r).take c ++ zeros z)) = some (f', off, recs) ∧
+      (recs = good.map (·.r) ∨ recs = good.map (·.r) ++ [s.r]) ∧
+      (scan (writeAt f' off (encodeAll ss))).stop = .eof ∧
+      (scan (writeAt f' off (encodeAll ss))).recs = recs ++ ss.map (·.r) := by
+  obtain ⟨h1, h2⟩ := scan_torn_total good s c z hg hs hd
+  have hck : checkFile (encodeAll good ++ ((encodeRecord s.ts s.crc s.r).take c ++ zeros z)) =
+      some (truncateTo (encodeAll good ++ ((encodeRecord s.ts s.crc s.r).take c ++ zeros z))
+              (scan (encodeAll good ++ ((encodeRecord s.ts s.crc s.r).take c ++ zeros z))).off,
+            (scan (encodeAll good ++ ((encodeRecord s.ts s.crc s.r).take c ++ zeros z))).off,
+            (scan (encodeAll good ++ ((encodeRecord s.ts s.crc s.r).take c ++ zeros z))).recs) := by
+    unfold checkFile; rw [if_pos h1]
+  refine ⟨_, _, _, hck, h2, ?_⟩
+  obtain ⟨hl, hsc⟩ := restart_then_puts _ hf ss hss _ _ _ hck
+  have := writeAt_at_end (truncateTo (encodeAll good ++ ((encodeRecord s.ts s.crc s.r).take c ++ zeros z))
+              (scan (encodeAll good ++ ((encodeRecord s.ts s.crc s.r).take c ++ zeros z))).off) (encodeAll ss)
+  rw [hl] at this
+  rw [this, hsc]
+  exact ⟨rfl, rfl⟩
+
+/-! ### code before fix 3252737: the torn tail is left in the file -/
+
+/-- an encoded record hidden in a value: head ++ body of (flag 4, key 66, value 99) -/
+def phantomRec : Record := ⟨4, [0x66], [0x99]⟩
+def embeddedBytes : Bytes := (fileUtilsEncode 0 phantomRec).take 22
+/-- the "block" in flight: its value carries `embeddedBytes` at record offset 256 -/
+def outerRec : Record := ⟨1, [0xB1], List.replicate 230 7 ++ embeddedBytes ++ List.replicate 40 7⟩
+def goodRec : Record := ⟨4, [0x10], [1, 2, 3]⟩
+def shortRec : Record := ⟨4, [0x20], [5]⟩
+/-- tmp.data after the crash: one acknowledged record and the first 300 bytes of the block record -/
+def tornFile : Bytes := fileUtilsEncode 0 goodRec ++ (fileUtilsEncode 0 outerRec).take 300
+
+set_option maxRecDepth 100000 in
+/-- **refutation, code before fix 3252737** (`checkFileLegacy` leaves the torn tail in place): restart delivers
+    the acknowledged record and sets the write position to 256; a 256-byte record is written there WITHOUT
+    truncating; the next restart delivers a third record, (4, 66, 99), that was never written. -/
+theorem restart_put_legacy_phantom :
+    checkFileLegacy tornFile = some (tornFile, 256, [goodRec]) ∧
+    (scan (writeAt tornFile 256 (fileUtilsEncode 0 shortRec))).recs = [goodRec, shortRec, phantomRec] := by
+  decide
+
+set_option maxRecDepth 100000 in
+/-- the same scenario on the current code: the torn tail is cut off, nothing but the two written records -/
+theorem restart_put_now_ok :
+    (checkFile tornFile).map (fun x => (x.1.length, x.2.1, x.2.2)) = some (256, 256, [goodRec]) ∧
+    (scan (writeAt (truncateTo tornFile 256) 256 (fileUtilsEncode 0 shortRec))).recs = [goodRec, shortRec] := by
+  decide
 
 /-! ## the pending index of the queue: tmp.data is removed only when nothing is pending -/
 
@@ -654,40 +775,52 @@ theorem context_created_empty_refuted :
 
 /-- a two-record promotion: block 1 and one account whose balance changes from 10 to 20 -/
 def wDisk : Disk :=
-  { wal := [], kv := Store.empty.apply ⟨4, [7], [10]⟩, stable := 0 }
-def wProm : Promotion := { height := 1, batch := [⟨1, [0xB1], [1]⟩, ⟨4, [7], [20]⟩] }
+  { wal := [], kv := Store.empty.apply ⟨4, [7], [10]⟩, stable := 0, cands := 0 }
+def wProm : Promotion := { height := 1, batch := [⟨1, [0xB1], [1]⟩, ⟨4, [7], [20]⟩], changesCands := true }
 
-/-- **stable_after_crash_refuted**: the full statement (all crash points) is false. Crash after the
-    fsync of the batch and before `SetCurrentBlock` (`committed 0 false`): recovery redelivers the whole
-    batch, account 7 reads 20 (block 1's value) while the stable pointer still says block 0 — neither
-    the old nor the new view. -/
+/-- **stable_after_crash_refuted** (window 1): crash after the fsync of the batch and before `SetCurrentBlock`
+    (`committed 0 false false`): recovery redelivers the whole batch, account 7 reads 20 (block 1's value) while
+    the stable pointer still says block 0 — neither the old nor the new view. -/
 theorem stable_after_crash_refuted :
     ¬ (∀ (d : Disk) (p : Promotion) (cp : CrashPoint), Quiescent d →
-        (recover (crashState d p cp)).sameView d ∨ (recover (crashState d p cp)).sameView (completed d p)) := by
+        (recover (crashState d p cp)).sameView (recover d) ∨
+        (recover (crashState d p cp)).sameView (recover (completed d p))) := by
   intro h
-  rcases h wDisk wProm (.committed 0 false) rfl with ⟨hkv, _⟩ | ⟨_, hst⟩
+  rcases h wDisk wProm (.committed 0 false false) rfl with ⟨hkv, _⟩ | ⟨_, hst, _⟩
   · have := congrFun hkv (4, [7])
     revert this
     simp [recover, crashState, wDisk, wProm, Store.replay, Store.apply]
   · revert hst
     simp [recover, crashState, completed, wDisk, wProm]
 
+/-- **pointer_moved_context_not_flushed_refuted** (window 2, open finding
+    c08/candidates-mismatch/pointer-moved-context-not-flushed): crash after `SetCurrentBlock` and before
+    `Context.Flush` has completed: key/value contents and pointer are those of block 1, the candidate list is still
+    the one of block 0; nothing redoes the flush on recovery. -/
+theorem pointer_moved_context_not_flushed_refuted :
+    (recover (crashState wDisk wProm (.committed 2 true false))).stable = 1 ∧
+    (recover (crashState wDisk wProm (.committed 2 true false))).cands = 0 ∧
+    (recover (completed wDisk wProm)).cands = 1 := by decide
+
 /-- the same for a batch torn between two records (`appending 1` … ) when the first record is an account:
     any nonempty durable prefix already changes what the old stable block "sees". -/
 theorem torn_batch_refuted :
-    ¬ ((recover (crashState wDisk ⟨1, [⟨4, [7], [20]⟩, ⟨1, [0xB1], [1]⟩]⟩ (.appending 1))).sameView wDisk) := by
+    ¬ ((recover (crashState wDisk ⟨1, [⟨4, [7], [20]⟩, ⟨1, [0xB1], [1]⟩], false⟩ (.appending 1))).sameView
+        (recover wDisk)) := by
   intro ⟨hkv, _⟩
   have := congrFun hkv (4, [7])
   revert this
   simp [recover, crashState, wDisk, Store.replay, Store.apply]
 
-/-- **recover_idempotent**: a crash during recovery itself (the async writer has re-stored any prefix of
-    the redelivered records) followed by another recovery gives the same result as one recovery. -/
+/-- **recover_idempotent**: record level — the async writer has re-stored any prefix of the redelivered
+    records when the process dies again; another recovery gives the same result as one recovery. (The byte level
+    of "crash during recovery" is `restart_idempotent` / `restart_then_puts`; a crash INSIDE one BitCask.Put —
+    file written, LevelDB position not yet — and torn LevelDB writes are not modelled.) -/
 theorem recover_idempotent (d : Disk) (a : Nat) :
     recover { d with kv := d.kv.replay (d.wal.take a) } = recover d := by
   simp [recover, redeliver_prefix]
 
 /-- non-vacuity: a quiescent disk and a safe crash point exist -/
-example : Quiescent wDisk ∧ safePoint (.committed 1 true) := ⟨rfl, rfl⟩
+example : Quiescent wDisk ∧ safePoint wDisk wProm (.committed 1 true true) := ⟨rfl, rfl, Or.inl rfl⟩
 
 end LemoProofs.C08
